@@ -331,3 +331,118 @@ _WSO = Contract(qual="hvsrpy.object_io.write_settings_object_to_file", params=["
 _WSO.ghost_state = ("__saved",)
 TASKS.append(FunctionTask(_WSO, registry={"Settings.save": FuncV(lambda ex, st, a, k, n_: (st.env.__setitem__("__saved", Tup(tuple(st.env["__saved"]) + (Tup((a[0], a[1])),))), NONE)[1], "Settings.save")},
                           label="hvsrpy.object_io.write_settings_object_to_file", clauses=["the writer saves the object it is given"]))
+
+# ---------------------------------------------------------------------------------------------------------------------
+# The twelve settings constructors on their executed bodies, base constructors inlined through super().__init__ (read from the same source).  Every parameter is
+# given: numbers, strings and booleans as symbolic scalars; [a, b] lists, the smoothing dictionary (with its array of centre frequencies), the FFT dictionary and
+# the azimuth array as mutable objects owned by the caller - the same objects a default argument would be, since Python builds a default once and shares it.
+# Proved: attrs lists exactly the constructor's parameters, once each; attribute p holds the content of argument p; and no list, dictionary or array reachable
+# from the new object is storage of an argument (so nothing is shared with the caller, with a default, or - through either - with another settings object).
+import ast as _ast15
+from pyvc import loader as _loader15
+_SET_CLASSES = ("Settings", "PreProcessingSettings", "HvsrPreProcessingSettings", "PsdPreProcessingSettings", "PsdProcessingSettings", "HvsrProcessingSettings",
+                "HvsrTraditionalProcessingSettingsBase", "HvsrTraditionalProcessingSettings", "HvsrTraditionalSingleAzimuthProcessingSettings",
+                "HvsrTraditionalRotDppProcessingSettings", "HvsrAzimuthalProcessingSettings", "HvsrDiffuseFieldProcessingSettings")
+
+
+def _ctor_params(cls):
+    node, _ = _loader15.find(f"hvsrpy.settings.{cls}")
+    init = [m for m in node.body if isinstance(m, _ast15.FunctionDef) and m.name == "__init__"][0]
+    a = init.args
+    names = [x.arg for x in a.args][1:]
+    return list(zip(names, a.defaults))
+
+
+def _sym_value(ex, st, name, default, fft_given):
+    """a symbolic argument of the kind the default has"""
+    owner = f"param:{name}"
+    if isinstance(default, _ast15.List):
+        items = [NONE if (isinstance(e_, _ast15.Constant) and e_.value is None) else (StrV(f"<{name}[{j}]>") if isinstance(e_, _ast15.Constant) and isinstance(e_.value, str)
+                                                                                       else z3.Real(f"{name}_{j}")) for j, e_ in enumerate(default.elts)]
+        return ex.alloc_list(st, items, owner=owner)
+    if isinstance(default, _ast15.Call) and _ast15.unparse(default.func) == "dict":
+        fc = ex.alloc_arr(st, (z3.Int("n_center_frequencies"),), z3.Const("center_frequencies", z3.ArraySort(z3.IntSort(), z3.RealSort())), "real", owner + ".center_frequencies_in_hz", tag="fcs")
+        return DictV({"operator": StrV("<operator>"), "bandwidth": z3.Real("bandwidth"), "center_frequencies_in_hz": fc}, owner=owner)
+    if isinstance(default, _ast15.Call) and _ast15.unparse(default.func).startswith("np."):
+        return ex.alloc_arr(st, (z3.Int(f"n_{name}"),), z3.Const(name + "_values", z3.ArraySort(z3.IntSort(), z3.RealSort())), "real", owner, tag=name)
+    if isinstance(default, _ast15.Constant) and default.value is None:
+        if name == "fft_settings" and fft_given:
+            return DictV({"n": z3.Int("fft_n")}, owner=owner)
+        return NONE
+    if isinstance(default, _ast15.Constant) and isinstance(default.value, bool):
+        return z3.Bool(name)
+    if isinstance(default, _ast15.Constant) and isinstance(default.value, str) or isinstance(default, _ast15.Name):
+        return StrV(f"<{name}>")
+    return z3.Real(name)
+
+
+def _set_inputs(cls, fft_given):
+    def mk(ex, st):
+        st.env["self"] = sym_obj(ex, st, cls, {}, owner="param:self")
+        given = {}
+        for name, default in _ctor_params(cls):
+            given[name] = st.env[name] = _sym_value(ex, st, name, default, fft_given)
+        st.env["__given"] = given
+        return [z3.Int("n_center_frequencies") >= 0, z3.Int("n_azimuths_in_degrees") >= 0]
+    return mk
+
+
+def _same_content_fresh(ex, st, got, want, fresh_needed=True):
+    """got holds the content of want; every list / dictionary / array of got is fresh storage (none of want's)"""
+    if isinstance(want, _ARef):
+        if not isinstance(got, _ARef) or got.sid == want.sid:
+            return False
+        dg, dw = st.heap[got.sid], st.heap[want.sid]
+        return dg.owner == "fresh" and dg.view_of is None and len(dg.shape) == len(dw.shape) and all(z3.eq(z3.simplify(a), z3.simplify(b)) for a, b in zip(dg.shape, dw.shape)) \
+            and z3.eq(dg.data, dw.data)
+    if isinstance(want, _LRef):
+        if isinstance(got, _ARef):          # np.array(list): an array of the list's elements
+            dg = st.heap[got.sid]
+            items = st.heap[want.sid].items
+            n = z3.simplify(dg.shape[0])
+            return dg.owner == "fresh" and z3.is_int_value(n) and n.as_long() == len(items) and \
+                all(z3.eq(z3.simplify(z3.Select(dg.data, j)), z3.simplify(_npm15.real(x))) for j, x in enumerate(items))
+        if not isinstance(got, _LRef) or got.sid == want.sid:
+            return False
+        lg, lw = st.heap[got.sid], st.heap[want.sid]
+        return lg.owner == "fresh" and len(lg.items) == len(lw.items) and all(_same_content_fresh(ex, st, a, b) for a, b in zip(lg.items, lw.items))
+    if isinstance(want, DictV):
+        return isinstance(got, DictV) and got is not want and list(got.items) == list(want.items) and all(_same_content_fresh(ex, st, got.items[k_], want.items[k_]) for k_ in want.items)
+    if isinstance(want, StrV):
+        return isinstance(got, StrV) and got.s == want.s
+    if want is NONE:
+        return got is NONE
+    from pyvc.core import lit as _lit15, is_z3 as _isz3
+    return _isz3(_lit15(got)) and z3.eq(_lit15(got), _lit15(want))
+
+
+def _stored(ex, st, a, k, n_):
+    f = st.heap[st.env["self"].oid].fields
+    given = st.env["__given"]
+    attrs = f.get("attrs")
+    if not isinstance(attrs, _LRef):
+        return z3.BoolVal(False)
+    listed = [x.s for x in st.heap[attrs.sid].items if isinstance(x, StrV)]
+    if sorted(listed) != sorted(given) or len(set(listed)) != len(listed):
+        return z3.BoolVal(False)
+    return z3.BoolVal(all(name in f and _same_content_fresh(ex, st, f[name], val) for name, val in given.items()))
+
+
+def _m_np_array15(ex, st, args, kw, node):
+    v = args[0]
+    if isinstance(v, _ARef):
+        d = ex.arr(st, v)
+        return ex.alloc_arr(st, d.shape, d.data, d.elem, "fresh", tag="array")
+    return _npm15.NP.attrs["array"].fn(ex, st, args, kw, node)
+
+
+_SET_ENV = {"deepcopy": _npm15.DEEPCOPY, "__version__": StrV("<version>"), "np": ModV("np", dict(_npm15.NP.attrs, array=FuncV(_m_np_array15, "np.array")))}
+for _cls in _SET_CLASSES:
+    _has_fft = any(nm == "fft_settings" for nm, _ in _ctor_params(_cls))
+    for _fft in ((False, True) if _has_fft else (False,)):
+        _c = Contract(qual=f"hvsrpy.settings.{_cls}.__init__", params=["self"] + [nm for nm, _ in _ctor_params(_cls)], ghost={"stored": FuncV(_stored, "stored")},
+                      make_inputs=_set_inputs(_cls, _fft), ensures=["stored()"], modifies=["param:self"],
+                      notes="attrs lists exactly the constructor's parameters; each attribute holds its argument's content; no list, dictionary or array of the object is "
+                            "storage of an argument (base constructors inlined)")
+        TASKS.append(FunctionTask(_c, module_env=_SET_ENV, label=f"hvsrpy.settings.{_cls}.__init__" + ("[fft_settings given]" if _fft else ""),
+                                  clauses=["settings objects hold copies of what they are given: no state shared with callers, defaults or other objects"]))
